@@ -28,7 +28,8 @@ pub proof fn axiom_fmt_req_scru() ensures vstd::std_specs::fmt::fmt_req_all::<Sc
 pub enum Part { Stream, IdxTopic, IdxCtx }
 pub enum Op { Insert(Part, Seq<u8>, Seq<u8>), Remove(Part, Seq<u8>) }
 pub enum Ev {
-    Commit(Seq<Op>),          // one atomic fjall batch
+    Commit(Parts),            // one atomic fjall batch; payload = the stored data after it (so the order of the operations INSIDE a batch,
+                              // which has no meaning for fjall, has none here either)
     CommitErr,
     Persist(fjall::PersistMode),
     PersistErr,
@@ -117,7 +118,7 @@ impl Batch {
     pub fn commit(self, Tracked(st): Tracked<&mut St>) -> (r: Result<(), FjallError>)
         ensures
             final(st).contexts == old(st).contexts, final(st).last_id == old(st).last_id,
-            r is Ok ==> final(st).parts == apply_ops(old(st).parts, batch_ops(&self)) && final(st).log == old(st).log.push(Ev::Commit(batch_ops(&self))) && final(st).errs == old(st).errs,
+            r is Ok ==> final(st).parts == apply_ops(old(st).parts, batch_ops(&self)) && final(st).log == old(st).log.push(Ev::Commit(final(st).parts)) && final(st).errs == old(st).errs,
             r is Err ==> final(st).parts == old(st).parts && final(st).log == old(st).log.push(Ev::CommitErr) && final(st).errs == old(st).errs + 1,
     { unimplemented!() }
 }
